@@ -5,6 +5,7 @@
 #include "wait.h" // for DeadlineLimited
 
 #include <openssl/bio.h> // for BIO
+#include <openssl/err.h> // for ERR_clear_error
 
 #include <cassert> // for assert
 #include <stdexcept> // for std::logic_error
@@ -319,6 +320,7 @@ void SocketTlsImpl::DriverPending()
   // peer's last handshake flight must stay queued for the next Receive
   if(HandleLastError()) {
     for(int i = 1; i <= handshakeStepsMax; ++i) {
+      ERR_clear_error();
       auto res = SSL_do_handshake(ssl.get());
       if((res > 0) || !HandleResult(res)) {
         break;
@@ -342,11 +344,13 @@ void SocketTlsImpl::Shutdown()
   isWritable = false;
   remainingTime = std::chrono::seconds(1);
 
+  ERR_clear_error();
   if(SSL_shutdown(ssl.get()) <= 0) {
     // sent the shutdown, but have not received one from the peer yet
     // spend some time trying to receive it, but go on eventually
     char buf[1024];
     for(int i = 0; i < handshakeStepsMax; ++i) {
+      ERR_clear_error();
       auto res = SSL_read(ssl.get(), buf, sizeof(buf));
       if(res < 0) {
         if(!HandleResult(res)) {
@@ -357,6 +361,7 @@ void SocketTlsImpl::Shutdown()
       }
     }
 
+    ERR_clear_error();
     (void)SSL_shutdown(ssl.get());
   }
 }
@@ -365,6 +370,7 @@ size_t SocketTlsImpl::Read(char *data, size_t size)
 {
   if(HandleLastError()) {
     for(int i = 1; i <= handshakeStepsMax; ++i) {
+      ERR_clear_error();
       auto res = SSL_read(ssl.get(), data, static_cast<int>(size));
       if(res <= 0) {
         if(!HandleResult(res)) {
@@ -408,6 +414,7 @@ size_t SocketTlsImpl::Write(char const *data, size_t size)
       assert(pendingSend.empty() || (pendingSend.size() == remaining.size()));
 
       size_t written = 0U;
+      ERR_clear_error();
       auto res = SSL_write_ex(ssl.get(), remaining.data(), remaining.size(), &written);
       if(res <= 0) {
         pendingSend = remaining;
